@@ -210,6 +210,32 @@ def block_soup(rng, maxitems=14):
     return ' '.join(items)
 
 
+def bracket_cross(rng, maxitems=12):
+    """Square brackets and parentheses that nest and cross; '[' is written
+    directly behind a word character / ']' / ')' so that it is punctuation
+    (array index), not the start of an sqlite [name]."""
+    n = rng.randint(2, maxitems)
+    out = ['select ']
+    for _ in range(n):
+        x = rng.random()
+        last = out[-1][-1:]
+        if x < 0.25 and (last.isalnum() or last in '])_'):
+            out.append('[')
+        elif x < 0.35:
+            out.append('a[')
+        elif x < 0.5:
+            out.append(']')
+        elif x < 0.65:
+            out.append('(')
+        elif x < 0.8:
+            out.append(')')
+        elif x < 0.9:
+            out.append(rng.choice(['a', '1', 'x2', 'f']))
+        else:
+            out.append(rng.choice([', ', ' ', ' + ', '::', ' as ']))
+    return ''.join(out)
+
+
 # --------------------------------------------------------------------------
 # corpus mutation
 _corpus = None
